@@ -509,7 +509,8 @@ def part_graphs(chk):
     else:
         plans = [("N<=3 all kinds, leaves 7 \"s\", all variants", 3, full, both, 128, False),
                  ("N<=4 kinds A P1 T1 S1, leaf 7, plain+registry variants", 4, ["A", "P1", "T1", "S1"], [("int", 7)], 128, True),
-                 ("N<=4 kinds A P T1 S1 A1 P1, leaf 7, plain+registry variants", 4, ["A", "P", "T1", "S1", "A1", "P1"], [("int", 7)], 256, True)]
+                 ("N<=4 kinds A P T1 S1 A1 P1, leaf 7, plain+registry variants", 4, ["A", "P", "T1", "S1", "A1", "P1"], [("int", 7)], 256, True),
+                 ("N<=4 kinds A P T1 S1 U, leaf \"s\", plain+registry variants", 4, ["A", "P", "T1", "S1", "U"], [("lit", "s")], 256, True)]
     for name, n, kinds, leaves, nshards, lean in plans:
         if chk.out_of_time(0.6):
             chk.cap("graphs: bound '%s' not run" % name)
@@ -527,7 +528,10 @@ def part_graphs(chk):
         chk.add(states=total, evaluations=sum(o["evals"] for o in outs))
         chk.part("graphs:" + name, graphs=total, unconstructible_skipped=sum(o["skipped"] for o in outs),
                  with_back_references=sum(o["shared"] for o in outs), by_nodes=str(sorted(sizes.items())))
-        chk.sample({"graph_first": outs[0]["first"], "graph_last": outs[-1]["last"]})
+        firsts = [o["first"] for o in outs if o["first"]]
+        lasts = [o["last"] for o in outs if o["last"]]
+        if firsts:
+            chk.sample({"plan": name, "graph_first": firsts[0], "graph_middle": firsts[len(firsts) // 2], "graph_last": lasts[-1]}, limit=12)
         chk.cov["bound_completed"] = "graphs " + name
     return viols
 
